@@ -2,6 +2,8 @@
    Ising model builders.  Statements only; each is closed by `exact`. *)
 From Coq Require Import List Arith ZArith Permutation.
 From PTN Require Import TTN.Store TTN.Inv Tree.RTree Special.Chain Special.ChainProofs Special.ChainUniv Models.Ising Models.IsingProofs.
+From Coq Require Import Bool.   (* ext-C19F *)
+From PTN Require Import Wire.Sem Wire.SemInst TTN.InvSem Special.FromTensor Special.FromTensorProofs Special.FromTensorTree Special.FromTensorValue.   (* ext-C19F *)
 Import ListNotations.
 
 (* ---- MatrixProductTree.from_tensor_list: all lengths, all root positions, all tensor shapes ------ *)
@@ -388,3 +390,137 @@ Example C19_example_universal :
     = Some (bin_nodes 2 5 [2; 3], bin_labels 5, true).
 Proof. vm_compute. repeat split; reflexivity. Qed.
 Print Assumptions C19_example_universal.
+
+(* ---- TTNO.from_tensor / _from_tensor_rec as a program over the store (ext-C19F) ---------------------------------- *)
+(* Special/FromTensor.v models from_tensor literally: the initial transposition by _get_qr_decomposition_shape,
+   add_root, and for every child (reference-tree order) the kernel call on the trailing 2 * subtree-size legs (a
+   fresh bond wire, two fresh atoms Q, R and the recorded definition "Q . R over the bond = current tensor"),
+   link_tensor(Q) + tensors[current] = Q, add_child_to_parent(R-node, R, 0, current, Q.ndim - 1), the recursion into
+   the child and the next TensorDict access.  The input tensor is atom 0; its axis a is wire a. *)
+
+(* ONE factor-and-attach step, on any well-formed store whose current node was just accessed (identity leg
+   permutation), for a fresh child identifier and r trailing OPEN legs: the step is accepted, keeps the store
+   invariant, touches only the current node and the new child, appends the child as the LAST child, leaves the
+   leading open legs at the current node and hands the r trailing legs to the child (identity permutation) *)
+Theorem C19_from_tensor_step : forall (s : store) (cur c : nat) (nd : node) (t : sarr) (r : nat) (dm : dmode) (tb : nat),
+  step_pre s cur c nd t r ->
+  exists s3, factor_attach s cur c t r dm tb = Some s3 /\ Inv.wf s3
+    /\ akeys (nodes s3) = akeys (nodes s) ++ [c] /\ root s3 = root s
+    /\ (forall k, k <> cur -> k <> c -> aget k (nodes s3) = aget k (nodes s) /\ aget k (tensors s3) = aget k (tensors s))
+    /\ (exists nP, aget cur (nodes s3) = Some nP /\ parent nP = parent nd /\ children nP = children nd ++ [c]
+          /\ open_of nP (tens s3 cur) = skipn (nvirt nd) (firstn (length (axes t) - r) (axes t)))
+    /\ (exists nC, aget c (nodes s3) = Some nC /\ parent nC = Some cur /\ children nC = []
+          /\ open_of nC (tens s3 c) = skipn (length (axes t) - r) (axes t) /\ perm nC = seq 0 (nlegs nC)).
+Proof. exact factor_attach_spec. Qed.
+Print Assumptions C19_from_tensor_step.
+
+(* the same step preserves the VALUE of the whole network over any commutative semiring, under the kernel
+   contract of that step (def_holds: Q . R summed over the new bond = the factorised tensor) *)
+Theorem C19_from_tensor_step_value : forall (R : Type) (zero one : R) (add mul : R -> R -> R) (tbl : nat -> list nat -> R)
+    (s : store) (cur c : nat) (nd : node) (t : sarr) (r : nat) (dm : dmode) (tbv : nat),
+  comm_semiring zero one add mul -> step_pre s cur c nd t r -> simple s ->
+  def_holds zero one add mul (step_result s cur c nd t r dm tbv) tbl (def_of s t dm) ->
+  simple (step_result s cur c nd t r dm tbv) /\
+  forall rho, net_value zero one add mul (step_result s cur c nd t r dm tbv) tbl rho = net_value zero one add mul s tbl rho.
+Proof. exact step_value. Qed.
+Print Assumptions C19_from_tensor_step_value.
+
+(* ALL reference trees with distinct identifiers, ALL leg assignments that are bijections onto 0..n-1, ALL three
+   decomposition modes (for the truncated SVD: all kept bond dimensions tb): (a) the program is accepted and the
+   result satisfies the store invariant; (b) the node dictionary lists the reference tree's identifiers in
+   pre-order, the root is the reference root, every node has the reference tree's parent and children IN THE SAME
+   ORDER; (c) every node ends with exactly two open legs: the operator's axes leg_dict[node] (out) and
+   n + leg_dict[node] (in), in this order, and an identity leg permutation *)
+Theorem C19_from_tensor_structure : forall (dm : dmode) (tb : nat -> nat) (t : rtree) (lg : nat -> nat) (shape : list nat),
+  NoDup (ids t) -> length shape = 2 * size t -> Permutation (map lg (ids t)) (seq 0 (size t)) ->
+  exists s', from_tensor t lg shape dm tb = Some s' /\ wfb s' = true
+    /\ akeys (nodes s') = ids t /\ root s' = Some (rid t)
+    /\ forall k, In k (ids t) ->
+       exists nk, aget k (nodes s') = Some nk /\ parent nk = parent_of k t /\ children nk = children_ids t k
+                  /\ open_of nk (tens s' k) = [lg k; size t + lg k] /\ perm nk = seq 0 (nlegs nk).
+Proof. exact from_tensor_structure. Qed.
+Print Assumptions C19_from_tensor_structure.
+
+(* (d) VALUE, over any commutative semiring and any table of atom entries: if every factorisation the program
+   recorded holds (Q . R = A over the new bond: the LAPACK QR / SVD contract), the contraction of the resulting
+   network is the input tensor: for every assignment rho of indices to wires the network's value is the entry
+   of atom 0 at (rho 0, ..., rho (2n-1)); the open legs of the network are, node after node in pre-order, the wires
+   leg_dict[node], n + leg_dict[node] *)
+Theorem C19_from_tensor_value : forall (R : Type) (zero one : R) (add mul : R -> R -> R) (tbl : nat -> list nat -> R)
+    (dm : dmode) (tb : nat -> nat) (t : rtree) (lg : nat -> nat) (shape : list nat),
+  comm_semiring zero one add mul ->
+  NoDup (ids t) -> length shape = 2 * size t -> Permutation (map lg (ids t)) (seq 0 (size t)) ->
+  exists s', from_tensor t lg shape dm tb = Some s' /\ wfb s' = true
+    /\ akeys (nodes s') = ids t /\ root s' = Some (rid t)
+    /\ (forall k, In k (ids t) ->
+        exists nk, aget k (nodes s') = Some nk /\ parent nk = parent_of k t /\ children nk = children_ids t k
+                   /\ open_of nk (tens s' k) = [lg k; size t + lg k] /\ perm nk = seq 0 (nlegs nk))
+    /\ open_wires s' = flat_map (fun k => [lg k; size t + lg k]) (ids t)
+    /\ ((forall d, In d (defs s') -> def_holds zero one add mul s' tbl d) ->
+        forall rho, net_value zero one add mul s' tbl rho = tbl 0 (map rho (seq 0 (length shape)))).
+Proof. exact from_tensor_correct. Qed.
+Print Assumptions C19_from_tensor_value.
+
+(* the decidable form of the hypotheses the harness evaluates per instance implies them *)
+Theorem C19_from_tensor_hyp_checker : forall (t : rtree) (lg : nat -> nat) (shape : list nat),
+  ft_hyp t lg shape = true ->
+  NoDup (ids t) /\ length shape = 2 * size t /\ Permutation (map lg (ids t)) (seq 0 (size t)).
+Proof. exact ft_hyp_sound. Qed.
+Print Assumptions C19_from_tensor_hyp_checker.
+
+(* non-vacuity 1: root 0 with children 1, 2; node 1 has the child 3; leg assignment 0->2, 1->0, 2->3, 3->1;
+   site dimensions 2, 3, 2, 1: hypotheses hold, the model accepts, the result passes the invariant (also the
+   extended one of TTN/InvSem.v) and the structure / open-leg statement; QR, SVD and truncated SVD *)
+Example C19_example_from_tensor :
+  let t := RNode 0 [RNode 1 [RNode 3 []]; RNode 2 []] in
+  let lg := fun i => nth i [2; 0; 3; 1] 0 in
+  let shape := [2; 3; 2; 1; 2; 3; 2; 1] in
+  ft_hyp t lg shape = true
+  /\ map (fun dm => option_map (fun s => (akeys (nodes s), wfb s, wfsb s, ft_result_ok t lg 4 s, open_legs s, length (defs s)))
+                               (from_tensor t lg shape dm (fun _ => 1)))
+         [DQR; DSVD; DTSVD]
+     = let r := Some ([0; 1; 3; 2], true, true, true, [(0, [2; 6]); (1, [0; 4]); (3, [1; 5]); (2, [3; 7])], 3) in [r; r; r].
+Proof. vm_compute. split; reflexivity. Qed.
+Print Assumptions C19_example_from_tensor.
+
+(* non-vacuity 2 (kernel contract): a two-node tree with the SWAPPED leg assignment, operator A of shape
+   (2,1,2,1), Q = the unit vector, R = A: the recorded definition holds, hence the network denotes A *)
+Definition exf_t : rtree := RNode 0 [RNode 1 []].
+Definition exf_lg (k : nat) : nat := 1 - k.
+Definition exf_shape : list nat := [2; 1; 2; 1].
+Definition exf_A (a0 a1 a2 a3 : nat) : nat :=
+  if Nat.ltb a0 2 && Nat.eqb a1 0 && Nat.ltb a2 2 && Nat.eqb a3 0 then 1 + a0 + 2 * a2 else 0.
+Definition exf_tbl (a : nat) (idx : list nat) : nat :=
+  match a, idx with
+  | 0, [a0; a1; a2; a3] => exf_A a0 a1 a2 a3
+  | 1, [i; j; k] => if Nat.eqb i 0 && Nat.eqb j 0 && Nat.eqb k 0 then 1 else 0
+  | 2, [k; x; y] => if Nat.eqb k 0 then exf_A x 0 y 0 else 0
+  | _, _ => 0
+  end.
+Definition exf_tb : nat -> nat := fun _ => 0.
+Definition exf_s : store :=
+  match from_tensor exf_t exf_lg exf_shape DQR exf_tb with Some s => s | None => empty_store end.
+
+Example C19_example_from_tensor_contract :
+  forall d, In d (defs exf_s) -> def_holds 0 1 Nat.add Nat.mul exf_s exf_tbl d.
+Proof.
+  intros d Hd. set (s := exf_s) in *. vm_compute in s. subst s. cbn [defs In] in Hd. destruct Hd as [<-|[]].
+  intros rho. cbn -[exf_tbl Nat.add Nat.mul]. unfold value_s, value, atoms_val, atom_val, atom_wires.
+  cbn -[exf_tbl Nat.add Nat.mul]. unfold upd. cbn -[exf_tbl Nat.add Nat.mul].
+  unfold exf_tbl, exf_A.
+  destruct (rho 0) as [|[|i]]; destruct (rho 1) as [|j]; destruct (rho 2) as [|[|k]]; destruct (rho 3) as [|l]; reflexivity.
+Qed.
+Print Assumptions C19_example_from_tensor_contract.
+
+Example C19_example_from_tensor_value : forall rho,
+  net_value 0 1 Nat.add Nat.mul exf_s exf_tbl rho = exf_A (rho 0) (rho 1) (rho 2) (rho 3).
+Proof.
+  destruct (C19_from_tensor_value nat 0 1 Nat.add Nat.mul exf_tbl DQR exf_tb exf_t exf_lg exf_shape nat_csr)
+    as (s' & E & _ & _ & _ & _ & _ & V).
+  - repeat constructor; cbn; intuition discriminate.
+  - reflexivity.
+  - vm_compute. apply perm_swap.
+  - assert (Es : s' = exf_s) by (unfold exf_s; rewrite E; reflexivity). subst s'.
+    intros rho. rewrite (V C19_example_from_tensor_contract rho). reflexivity.
+Qed.
+Print Assumptions C19_example_from_tensor_value.
